@@ -172,6 +172,11 @@ fn subjects(ctx: &Ctx, env: &Env) -> Vec<Subject> {
         let main = RawHeader::layout(&[(1000, Val::str("n")), (1003, Val::Int32(vec![7])), (1004, Val::i18n(&["s"]))]);
         add(format!("hand-encoded-pad{}", pad), assemble(&RawLead::new("n"), &sig, 0, &main, b"payload").0);
     }
+    // rpmbuild-made packages (their headers have regions, legacy signature tags and other paddings than the builder's)
+    for rel in ["test_assets/fixture_packages/rpm-empty-0-0.x86_64.rpm", "test_assets/fixture_packages/rpm-empty-0-0.src.rpm", "test_assets/ima_signed.rpm"] {
+        let b = std::fs::read(ctx.asset(rel)).unwrap_or_else(|e| crate::ctx::machinery(&format!("{}: {}", rel, e)));
+        add(format!("asset {}", rel.rsplit('/').next().unwrap()), b);
+    }
     // packages without a single payload byte (the file ends where the payload would start)
     {
         let sig = RawHeader::new(vec![RawEntry { tag: 1004, ty: 7, offset: 0, count: 9 }], (0..9u8).collect());
@@ -211,6 +216,19 @@ fn write_outcome(sub: &str, s: &Subject, meta_only: bool, r: Result<Result<(), S
             }
         }
     }
+}
+
+/// As `do_write`, with the library's public hashing adapter between the package and the sink: returns also whether the digest the
+/// adapter reports is the digest of what the sink received (whether the write ended with Ok or with an error).
+fn do_write_hashed(s: &Subject, mode: SinkMode) -> (Result<Result<(), String>, vlib::report::Panic>, Vec<u8>, bool) {
+    use sha2::Digest;
+    let out = Rc::new(RefCell::new(vec![]));
+    let calls = Rc::new(RefCell::new(0usize));
+    let mut w = rpm::Sha256Writer::new(Sink { mode, out: out.clone(), calls: calls.clone() });
+    let r = catch(|| s.pkg.write(&mut w).map_err(|e| e.to_string()));
+    let o = out.borrow().clone();
+    let same = catch(|| w.into_digest().as_ref().to_vec()).map(|d| d == sha2::Sha256::digest(&o).to_vec()).unwrap_or(false);
+    (r, o, same)
 }
 
 fn do_write(s: &Subject, meta_only: bool, mode: SinkMode) -> (Result<Result<(), String>, vlib::report::Panic>, Vec<u8>, usize) {
@@ -337,6 +355,35 @@ pub fn run(ctx: &Ctx) -> i32 {
             ex[format!("{}{}", s.name, if meta_only { " (metadata)" } else { "" })] = json!({"executions": st.executions, "max_choice_points": st.max_points, "by_deviations": st.by_deviations});
             for x in accs {
                 b.merge(x);
+            }
+            // the same exploration with the public Sha256Writer between package and sink (first subject only)
+            if si == 0 && !meta_only {
+                let (st, accs) = explore(
+                    bound,
+                    vlib::par::threads(),
+                    Acc::new,
+                    |ch| do_write_hashed(s, SinkMode::Chooser(ch.clone())),
+                    |trace, (r, out, digest_is_of_the_emitted_bytes), acc: &mut Acc| {
+                        acc.evals += 1;
+                        let answers: Vec<(usize, u32)> = trace.iter().enumerate().filter(|(_, p)| p.chosen != 0).map(|(i, p)| (i, p.chosen)).collect();
+                        if !answers.is_empty() {
+                            acc.nontrivial += 1;
+                        }
+                        let case = || json!({"subject": s.name, "through": "rpm::Sha256Writer", "deviating_sink_answers(call index, 1=one byte 2=len-1 3=Interrupted 4=Ok(0) 5=error)": answers});
+                        let failed = trace.iter().any(|p| p.chosen == 4 || p.chosen == 5);
+                        if failed && matches!(r, Ok(Ok(()))) {
+                            acc.viol(Violation::new("write-explore", "the sink reported failure but write returned Ok".to_string(), case()).sig("clause", "failure-swallowed").rank(answers.len() as u64));
+                        }
+                        if !digest_is_of_the_emitted_bytes {
+                            acc.viol(Violation::new("write-explore", format!("the hashing adapter's digest is not the digest of the {} bytes that reached the sink", out.len()), case()).sig("clause", "adapter-digest").rank(answers.len() as u64));
+                        }
+                        write_outcome("write-explore", s, false, r, &out, answers.len() as u64 * 10_000 + 7, &case, acc);
+                    },
+                );
+                ex[format!("{} (through Sha256Writer)", s.name)] = json!({"executions": st.executions, "by_deviations": st.by_deviations});
+                for x in accs {
+                    b.merge(x);
+                }
             }
         }
     }
